@@ -156,7 +156,7 @@ COMPXS_DIFF = ("powerConvMult", "d1Multiplier", "d1Additive", "d2Multiplier", "d
 
 def compxs_records(lib):
     md = lib.compxsMetadata
-    ng, ncomp, order = md["numGroups"], md["numComps"], md["maxScatteringOrder"]
+    ng, order = md["numGroups"], md["maxScatteringOrder"]
     out = [("1D-specifications", [I(md[k]) for k in COMPXS_1D])]
     two = []
     if md["fileWideChiFlag"]:
@@ -182,8 +182,9 @@ def compxs_records(lib):
             if rmd["chiFlag"]:
                 four += [Dd(mac["fission"][g]), Dd(mac["nuSigF"][g]), LD(np.asarray(mac["chi"][g]).ravel())]
             four.append(LD([tot[r, g] for r in rows]))
-            # the container keeps one multiplier for directions 1 and 2 (armi stores both under "d1Multiplier")
-            four += [Dd(rmd["d1Multiplier" if k == "d2Multiplier" else k][g]) for k in COMPXS_DIFF]
+            # armi 0.5.1 keeps one multiplier for directions 1 and 2 (both stored under "d1Multiplier"); a repaired
+            # tree has its own "d2Multiplier"
+            four += [Dd((rmd[k] if rmd[k] is not None else rmd["d1Multiplier"])[g]) for k in COMPXS_DIFF]
             if rmd["numPrecursorFamilies"]:
                 four.append(LI(rmd["numPrecursorsProduced", g]))
             four.append(Dd(mac.n2n[g]))
